@@ -1,3 +1,4 @@
+import Qv.Model.UsedSet
 import Qv.Base.Text
 import Qv.Codec.L2
 import Qv.Codec.Refcount
@@ -122,6 +123,12 @@ def respondPure (line : String) : String :=
   | ["rt", cb, e] => respRt (nat! cb) (hex! e)
   | ["rc", order, init, op, i, v] => respRc (nat! order) (unhex init) op (nat! i) (nat! v)
   | ["rcfree", order, init, s, c] => respRcFree (nat! order) (unhex init) (nat! s) (nat! c)
+  | ["uset", nums, qs] =>
+    let parse := fun (t : String) => if t == "-" then [] else (t.splitOn ",").filterMap (·.toNat?)
+    let rs := Qv.Model.UsedSet.sortedS (Qv.Model.UsedSet.build (parse nums))
+    let rtxt := if rs.isEmpty then "-" else ",".intercalate (rs.map (fun r => s!"{r.1}-{r.2}"))
+    let used := String.ofList ((parse qs).map (fun q => if Qv.Model.UsedSet.inUse rs q then '1' else '0'))
+    s!"uset ranges={rtxt} used={used}"
   | "geo" :: rest =>
     match parseGeo (rest.take 9), rest.drop 9 with
     | some g, [off] => respGeo g (nat! off)
